@@ -119,14 +119,14 @@ func rehash(pkt []byte) []byte {
 }
 
 type discCase struct {
-	name    string
-	ptype   string
-	family  string
-	pkt     []byte
-	mustErr bool   // decodePacket / handlePacket must reject it
-	wantErr string // when non-empty: handlePacket's error must be exactly this
-	wantOK  bool   // handlePacket must accept it
-	noHandle bool  // decodePacket only
+	name     string
+	ptype    string
+	family   string
+	pkt      []byte
+	mustErr  bool   // decodePacket / handlePacket must reject it
+	wantErr  string // when non-empty: handlePacket's error must be exactly this
+	wantOK   bool   // handlePacket must accept it
+	noHandle bool   // decodePacket only
 }
 
 type discOutcome struct {
